@@ -2,6 +2,7 @@
  * hash_value<T>(T const&) hashes the OBJECT REPRESENTATION of T: for scalars that is the value; for std::string it is the
  * string object itself (pointer, size, inline buffer), which depends on where the string lives, not only on its characters. */
 #include "rt_common.h"
+#define SEQ_WITH_ID 1
 #include "item_types.h"
 unsigned long __CPROVER_uninterpreted_hval(unsigned long, unsigned int, unsigned long);
 unsigned long __CPROVER_uninterpreted_hobj(unsigned long, unsigned int);
